@@ -1,4 +1,4 @@
-import ShVerif.Proofs.C12
+import ShVerif.Proofs.C12Complete
 /-
   C12 — parser acceptance agrees with the real shells, at token level.
 
@@ -20,19 +20,67 @@ def agree_statement (l : Lang) : Prop :=
 def agree_recognisers_statement (l : Lang) : Prop :=
   ∀ ts, accepts l ts = shellAccepts l ts
 
-/-- Soundness of the recogniser, for every rule-variant vector and every token list: what the
-    model parser accepts is a program of the grammar with the same rule variants. -/
+/-! ### Parser = grammar, for every rule-variant vector and every token list -/
+
+/-- Soundness of the recogniser: what the model parser accepts is a program of the grammar with
+    the same rule variants. -/
 theorem sound (c : Cfg) (ts : List Tok) (h : parse c ts = true) : Derives c .program .closed ts :=
   parseWith_sound h
 
-/-- In particular: whatever the Go parser (model) accepts is derivable in the grammar with Go's
-    rule variants. -/
-theorem accepts_sound (l : Lang) (ts : List Tok) (h : accepts l ts = true) :
-    Derives (goCfg l) .program .closed ts := sound _ _ h
+/-- Completeness of the recogniser: every program of the grammar is accepted, with the fuel
+    `fuelFor ts` the model uses. -/
+theorem complete (c : Cfg) (ts : List Tok) (h : Derives c .program .closed ts) : parse c ts = true :=
+  parse_complete h
 
-/-- Completeness of the recogniser for every rule-variant vector (not proved yet). -/
-def complete_statement : Prop :=
-  ∀ c ts, Derives c .program .closed ts → parse c ts = true
+/-- The fuel is no restriction: any larger fuel gives the same answer (no token list makes the
+    parser run out of fuel or need more than `8·|ts| + 8` steps of call depth). -/
+theorem fuel_sufficient (c : Cfg) (ts : List Tok) (f : Nat) (hf : fuelFor ts ≤ f) :
+    parseWith c f ts = parse c ts := by
+  cases hp : parse c ts with
+  | true => exact parseWith_complete (by simp [fuelFor] at hf; omega) (sound c ts hp)
+  | false =>
+    cases hw : parseWith c f ts with
+    | false => rfl
+    | true => rw [complete c ts (parseWith_sound hw)] at hp; cases hp
+
+/-- The Go parser (model) accepts exactly the grammar with Go's rule variants. -/
+theorem accepts_iff_go_grammar (l : Lang) (ts : List Tok) :
+    accepts l ts = true ↔ Derives (goCfg l) .program .closed ts :=
+  ⟨sound _ ts, complete _ ts⟩
+
+/-- `shellAccepts` decides the shells' grammar (this is what `bash -n` / `dash -n` validate). -/
+theorem shellAccepts_iff_shell_grammar (l : Lang) (ts : List Tok) :
+    shellAccepts l ts = true ↔ Derives (shCfg l) .program .closed ts :=
+  ⟨sound _ ts, complete _ ts⟩
+
+/-- Closed under mutations: the equivalence holds for the result of any edit (insertion, deletion,
+    swap, replacement …) of any token list, since it holds for all token lists. -/
+theorem mutations_closed (c : Cfg) (edit : List Tok → List Tok) (ts : List Tok) :
+    parse c (edit ts) = true ↔ Derives c .program .closed (edit ts) :=
+  ⟨sound _ _, complete _ _⟩
+
+/-! ### The property itself and where it fails on the unchanged tree -/
+
+/-- C12 restricted to the token lists on which the rule variants that separate the Go parser
+    from the shell (the known findings and the documented `!` difference) do not change the
+    parser's answer. -/
+theorem agree_partial (l : Lang) (ts : List Tok)
+    (h : parse (goCfg l) ts = parse (shCfg l) ts) :
+    accepts l ts = true ↔ Derives (shCfg l) .program .closed ts := by
+  unfold accepts
+  rw [h]
+  exact ⟨sound _ ts, complete _ ts⟩
+
+/-- … and outside that region the property fails, by definition of the region. -/
+theorem agree_fails_outside (l : Lang) (ts : List Tok)
+    (h : parse (goCfg l) ts ≠ parse (shCfg l) ts) :
+    ¬ (accepts l ts = true ↔ Derives (shCfg l) .program .closed ts) := by
+  intro hiff
+  apply h
+  have h2 := shellAccepts_iff_shell_grammar l ts
+  unfold shellAccepts at h2
+  unfold accepts at hiff
+  cases h1 : parse (goCfg l) ts <;> cases h3 : parse (shCfg l) ts <;> simp_all
 
 /-- Known finding C12-else-in-command-*: `else` / `in` as command names. -/
 theorem else_in_accepted_by_go_only :
@@ -62,6 +110,13 @@ theorem for_assign_accepted_by_go_only :
 theorem bash_lone_bang_is_a_documented_difference :
     accepts .bash [bang] = false ∧ shellAccepts .bash [bang] = true ∧
     accepts .bash [bang, bang, word] = false ∧ shellAccepts .bash [bang, bang, word] = true := by decide
+
+/-- The property as stated is false for both languages (witnesses `else` / `in`). -/
+theorem agree_false (l : Lang) : ¬ agree_statement l := by
+  intro h
+  cases l
+  · exact agree_fails_outside .bash [kElse] (by decide) (h _)
+  · exact agree_fails_outside .posix [kIn] (by decide) (h _)
 
 /-- The recogniser-level property is false for both languages. -/
 theorem agree_recognisers_false (l : Lang) : ¬ agree_recognisers_statement l := by
